@@ -189,7 +189,7 @@ def parse_header(text):
     try:
         a = text.index("HEADER;") + 7
         b = text.index("ENDSEC;", a)
-        p = G._P(text[a:b])
+        p = _P(text[a:b])
         out = {}
         while p.peek():
             n = p.ident()
@@ -218,10 +218,81 @@ def header_diff(a_text, b_text):
     return None
 
 
+class _P(G._P):
+    """the small reader of p21_gen with string literals delimited by the grammar (page directive `\\S\\` takes any
+    character, the apostrophe included; `\\X2\\ … \\X0\\` etc.), not by apostrophe counting"""
+    def value(self):
+        c = self.peek()
+        if c != "'":
+            return G._P.value(self)
+        s, j = self.s, self.i + 1
+        BS = chr(92)
+        while True:
+            if j >= len(s):
+                raise ValueError(f"unterminated string at {self.i}")
+            ch = s[j]
+            if ch == "'":
+                if s.startswith("''", j):
+                    j += 2
+                    continue
+                break
+            if ch == BS:
+                if s.startswith(BS + BS, j):
+                    j += 2
+                elif s.startswith(BS + "S" + BS, j):
+                    j += 4
+                elif s.startswith(BS + "P", j) and s[j + 3:j + 4] == BS:
+                    j += 4
+                elif s.startswith(BS + "X" + BS, j):
+                    j += 5
+                elif s.startswith(BS + "X2" + BS, j) or s.startswith(BS + "X4" + BS, j):
+                    e = s.index(BS + "X0" + BS, j)
+                    j = e + 4
+                else:
+                    raise ValueError(f"bad control directive at {j}: {s[j:j+8]!r}")
+                continue
+            j += 1
+        t = s[self.i:j + 1]
+        self.i = j + 1
+        return ("tok", t)
+
+
+def parse_p21(text):
+    """(header text, [Inst]) — p21_gen.parse_p21 with the grammar-aware string scanner"""
+    import re as _re
+    d = text.index("DATA;")
+    header = text[:d]
+    p = _P(text)
+    p.i = d + 5
+    out = []
+    while True:
+        p.peek()
+        if text.startswith("ENDSEC", p.i):
+            break
+        p.eat("#")
+        m = _re.compile(r"\s*(-?\d+)").match(text, p.i)
+        p.i = m.end()
+        iid = int(m.group(1))
+        p.eat("=")
+        if p.peek() == "(":
+            p.i += 1
+            parts = []
+            while p.peek() != ")":
+                n = p.ident()
+                parts.append((n.upper(), p.params()))
+            p.i += 1
+        else:
+            n = p.ident()
+            parts = [(n.upper(), p.params())]
+        p.eat(";")
+        out.append(G.Inst(iid, parts))
+    return header, out
+
+
 def parse_written(text):
     """independent reader over the implementation's output: (header text, [Inst]) or an error string"""
     try:
-        ft, header, ents = G.parse_p21(text)
+        header, ents = parse_p21(text)
     except Exception as e:      # not syntactically valid for the small reader
         return None, f"{type(e).__name__}: {e}"
-    return header, [i for _, i in ents]
+    return header, ents
